@@ -16,6 +16,7 @@ from fractions import Fraction
 import numpy as np
 
 from ..cert import DM, chol_factor, frac_json
+from ..exact import Pure, call_rng, describe, present_nd
 from ..pool import Result, run_pool, worker_driver, fold
 from .. import qgen
 
@@ -26,7 +27,11 @@ RULE = ("qubit and qutrit maps given by Choi matrices built from exact data by t
         "toqito's value must lie within tau; plus relations (symmetry, zero, <=2, Choi trace-norm bounds, two-unitary closed form, unitary "
         "invariance, homogeneity, channel = 1, CP = ||Phi*(1)||, dual map, fidelity symmetric/=1/<= Choi fidelity/dimension 5, product states). "
         "non-trivial = certified interval narrower than 1e-4 and the optimum >= 1e-2 away from the trivial values (0 and 2 for the diamond "
-        "distance of channels, 0 and 1 for the channel fidelity), or a relation evaluated on such an instance; distinct = hash of the instance and call form")
+        "distance of channels, 0 and 1 for the channel fidelity), or a relation evaluated on such an instance; distinct = hash of the instance and call form; "
+        "presentation: every call of a toqito function receives the same values in a freshly drawn presentation per array argument (C / Fortran / strided memory "
+        "layout; real-valued Choi matrices as float64, integer-valued ones also as int64; real/complex pairs in both argument orders); the arrays handed over must "
+        "be untouched afterwards; the main diamond_distance / channel_fidelity / completely_bounded_trace_norm call is repeated on the same objects for one task in "
+        "three and must return the same value")
 ASSUMPTIONS = [
     "toqito computes with the float Choi matrices it is given; the instance certified is their exact dyadic image (J1 - J2 is the float difference, exact image taken after the subtraction)",
     "tolerance 2e-5 on picos/CVXOPT-solved values (completely_bounded_trace_norm and callers); 1e-3 on channel_fidelity: SCS is called with eps=1e-7 but stops at its iteration limit "
@@ -403,6 +408,35 @@ def _call(fn, *a, **k):
         return "raise", f"{type(e).__name__}: {str(e)[:200]}"
 
 
+class Presenter:
+    """calls of toqito functions for one task: every ndarray argument is handed over as the same values in a presentation drawn for this call
+    (a function of the task's presentation seed and the call's key), the objects handed over must be untouched afterwards, and with
+    again=True the call is repeated on the same objects and must return the same value within tol"""
+
+    def __init__(self, pres, res, desc):
+        self.pres, self.res, self.desc = pres, res, desc
+        self.last = None   # description of the presentation of the last call (for violation records)
+
+    def call(self, key, fn, *a, again=False, tol=0.0, **k):
+        prng = call_rng(self.pres, key)
+        args = [present_nd(prng, np.array(x, copy=True)) if isinstance(x, np.ndarray) else x for x in a]
+        self.last = describe([x for x in args if isinstance(x, np.ndarray)])
+        guard = Pure(*args)
+        name = getattr(fn, "__name__", str(fn))
+        st, v = _call(fn, *args, **k)
+        why = guard.modified()
+        if why is None and again and st == "ok" and prng is not None and int(prng.integers(3)) == 0 and not __import__("os").environ.get("VERIF_NO_REPEAT"):
+            st2, v2 = _call(fn, *args, **k)   # the SAME objects again
+            why = guard.modified()
+            self.res.count("repeat-call/" + name)
+            if why is None and st2 == "ok" and abs(v2 - v) > tol:
+                self.res.violation(f"{name}: a second call on the same objects returns {v2:.8f}, the first returned {v:.8f}",
+                                   {"function": name, "args": dict(self.desc, call=key), "values": [v, v2], "presentation": self.last, "check": "repeat"})
+        if why is not None:
+            self.res.violation(f"{name}: caller's arguments were modified ({why})", {"function": name, "args": dict(self.desc, call=key), "modified": why, "presentation": self.last, "check": "purity"})
+        return st, v
+
+
 def _check_interval(res, fn, desc, val, lo, hi, tau, thm, extra=None):
     """val must lie in [lo - tau, hi + tau]; returns True when checked and fine"""
     if lo is None or hi is None:
@@ -439,14 +473,16 @@ def work_cb(task, res: Result):
     warnings.filterwarnings("ignore")
     drv = worker_driver()
     d, kind = task["d"], task["kind"]
-    base = {"fn": "cb", "kind": kind, "d": d, "id": task["id"]}
+    base = {"fn": "cb", "kind": kind, "d": d, "id": task["id"], "pres": task.get("pres")}
+    P = Presenter(task.get("pres"), res, base)
 
     if kind in ("diff", "unitary_pair"):
         J1, J2 = choi_of(task["K1"]), choi_of(task["K2"])
         Jd = J1 - J2
         desc = dict(base, kinds=task["kinds"], J1=J1, J2=J2)
         lo, hi = _cb_interval(drv, res, Jd, d, d, kind)
-        st, v = _call(diamond_distance, J1, J2)
+        st, v = P.call("main", diamond_distance, J1, J2, again=True, tol=2 * TAU_CB)
+        desc["presentation"] = P.last
         nontriv = lo is not None and lo >= 1e-2 and hi <= 2 - 1e-2
         res.case(desc, nontriv, f"diamond/{kind}/{'-'.join(task['kinds'])}/d{d}/{st}")
         if st == "numfail":
@@ -458,13 +494,13 @@ def work_cb(task, res: Result):
         if _check_interval(res, "diamond_distance", desc, v, lo, hi, TAU_CB, "checkCbPrimal_sound / checkCbDual_sound / cb_bracket") is False:
             return
         # symmetry (diamond_symm)
-        st2, v2 = _call(diamond_distance, J2, J1)
+        st2, v2 = P.call("swap", diamond_distance, J2, J1)
         if st2 == "ok":
             res.count("relation/symmetry")
             if abs(v - v2) > 2 * TAU_CB:
                 res.violation(f"diamond_distance not symmetric: {v:.8f} vs {v2:.8f}", {"function": "diamond_distance", "args": desc, "values": [v, v2], "theorem": "diamond_symm"})
         # zero for equal channels (diamond_self_zero)
-        st3, v3 = _call(diamond_distance, J1, J1.copy())
+        st3, v3 = P.call("self", diamond_distance, J1, J1.copy())
         if st3 == "ok":
             res.count("relation/self-zero")
             if abs(v3) > TAU_CB:
@@ -497,7 +533,7 @@ def work_cb(task, res: Result):
         R = np.kron(Vu.T, Wu)
         if np.max(np.abs(R @ J1 @ R.conj().T - J1r)) > 1e-9:
             res.violation("kraus_to_choi of the rotated Kraus operators differs from (V^T (x) W) J (V^T (x) W)^H (Choi convention)", {"function": "kraus_to_choi", "args": dict(base, K=task["K1"], V=Vu, W=Wu)})
-        st4, v4 = _call(diamond_distance, J1r, J2r)
+        st4, v4 = P.call("rot", diamond_distance, J1r, J2r)
         if st4 == "ok":
             res.count("relation/unitary-invariance")
             if abs(v - v4) > 2 * TAU_CB or (lo is not None and not (lo - TAU_CB <= v4 <= hi + TAU_CB)):
@@ -510,7 +546,8 @@ def work_cb(task, res: Result):
         Jf = task["J"]
         desc = dict(base, J=Jf)
         lo, hi = _cb_interval(drv, res, Jf, d, d, kind)
-        st, v = _call(completely_bounded_trace_norm, Jf)
+        st, v = P.call("main", completely_bounded_trace_norm, Jf, again=True, tol=2 * TAU_CB)
+        desc["presentation"] = P.last
         res.case(desc, lo is not None and lo >= 1e-2, f"cb/herm/d{d}/{st}")
         if st == "numfail":
             res.count("solver-numerical-failure")
@@ -522,7 +559,7 @@ def work_cb(task, res: Result):
             return
         # homogeneity (cb_homogeneous): real (also negative) and complex factors
         for c in (task["c_real"], task["c_cplx"]):
-            stc, vc = _call(completely_bounded_trace_norm, c * Jf)
+            stc, vc = P.call(("homog", repr(c)), completely_bounded_trace_norm, c * Jf)
             dc = dict(base, J=Jf, c=c)
             res.case(dc, lo is not None and lo >= 1e-2, f"cb/homogeneity/{'complex' if isinstance(c, complex) else 'real'}/{stc}")
             if stc == "numfail":
@@ -537,13 +574,17 @@ def work_cb(task, res: Result):
         # cb spectral norm = cb trace norm of the dual map
         Jdual = dual_choi(Jf, d, d)
         try:
-            td = np.asarray(dual_channel(Jf))
+            a_J = present_nd(call_rng(task.get("pres"), "dual_channel"), Jf.copy())
+            g_J = Pure(a_J)
+            td = np.asarray(dual_channel(a_J))
+            if g_J.modified() is not None:
+                res.violation(f"dual_channel: caller's arguments were modified ({g_J.modified()})", {"function": "dual_channel", "args": desc, "modified": g_J.modified(), "presentation": describe(a_J), "check": "purity"})
             if np.max(np.abs(td - Jdual)) > 0:
                 res.violation("dual_channel(J) differs from the Choi matrix of the adjoint map", {"function": "dual_channel", "args": desc, "impl": td, "model": Jdual})
         except Exception as e:  # noqa: BLE001
             res.violation(f"dual_channel raises {type(e).__name__}", {"function": "dual_channel", "args": desc, "exception": str(e)[:200]})
         lo2, hi2 = _cb_interval(drv, res, Jdual, d, d, "herm-dual")
-        sts, vs = _call(completely_bounded_spectral_norm, Jf)
+        sts, vs = P.call("spectral", completely_bounded_spectral_norm, Jf)
         res.case(dict(desc, fn="cb_spectral"), lo2 is not None and lo2 >= 1e-2, f"cb_spectral/herm/d{d}/{sts}")
         if sts == "raise":
             res.violation(f"completely_bounded_spectral_norm raises {vs}", {"function": "completely_bounded_spectral_norm", "args": desc, "exception": vs})
@@ -564,7 +605,7 @@ def work_cb(task, res: Result):
             res.violation("certified interval of a CP map does not contain the operator norm of Phi*(1) (harness error)", {"function": "cp_closed_form", "args": desc, "certified": [lo, hi], "lam_max": lam_max})
         extra = {"cp_non_tp": (not tp) and is_psd(Jf), "trace_of_ptr": tr, "lam_max": lam_max}
         for fn, name, Jarg, L, H in ((completely_bounded_trace_norm, "completely_bounded_trace_norm", Jf, lo, hi),):
-            st, v = _call(fn, Jarg)
+            st, v = P.call("main", fn, Jarg, again=True, tol=2 * TAU_CB)
             res.case(dict(desc, fn=name), L is not None and abs(tr - lam_max) >= 1e-2, f"cb/cp/d{d}/{st}")
             if st == "raise":
                 res.violation(f"{name} raises {v} on a CP map", {"function": name, "args": desc, "exception": v, **extra})
@@ -578,7 +619,7 @@ def work_cb(task, res: Result):
         lo, hi = _cb_interval(drv, res, Jf, d, d, kind)
         if lo is not None and not (lo - 1e-6 <= 1 <= hi + 1e-6):
             res.violation("certified interval of a channel does not contain 1 (harness error)", {"function": "channel_one", "args": desc, "certified": [lo, hi]})
-        st, v = _call(completely_bounded_trace_norm, Jf)
+        st, v = P.call("main", completely_bounded_trace_norm, Jf)
         res.case(desc, lo is not None, f"cb/channel/d{d}/{st}")
         if st == "raise":
             res.violation(f"completely_bounded_trace_norm raises {v} on a channel", {"function": "completely_bounded_trace_norm", "args": desc, "exception": v})
@@ -592,7 +633,7 @@ def work_cb(task, res: Result):
         tr = float(np.real(np.trace(T)))
         tp = bool(np.max(np.abs(T - np.eye(d))) < 1e-6)
         lo2, hi2 = _cb_interval(drv, res, Jdual, d, d, "channel-dual")
-        sts, vs = _call(completely_bounded_spectral_norm, Jf)
+        sts, vs = P.call("spectral", completely_bounded_spectral_norm, Jf)
         res.case(dict(desc, fn="cb_spectral"), lo2 is not None and abs(tr - lam_max) >= 1e-2, f"cb_spectral/channel/d{d}/{sts}/{'unital' if tp else 'nonunital'}")
         extra = {"cp_non_tp": (not tp) and is_psd(Jdual), "trace_of_ptr": tr, "lam_max": lam_max}
         if sts == "raise":
@@ -652,7 +693,8 @@ def work_cf(task, res: Result):
     if task["full"]:
         J1, J2 = _mix_full(J1, task["p1"], d), _mix_full(J2, task["p2"], d)
     J1, J2 = (J1 + J1.conj().T) / 2, (J2 + J2.conj().T) / 2
-    desc = {"fn": "channel_fidelity", "kind": "full-rank" if task["full"] else "rank-deficient", "d": d, "id": task["id"], "kinds": task["kinds"], "J1": J1, "J2": J2}
+    desc = {"fn": "channel_fidelity", "kind": "full-rank" if task["full"] else "rank-deficient", "d": d, "id": task["id"], "kinds": task["kinds"], "J1": J1, "J2": J2, "pres": task.get("pres")}
+    P = Presenter(task.get("pres"), res, {k_: v_ for k_, v_ in desc.items() if k_ not in ("J1", "J2")})
     E1, E2 = DM.exact_float(J1), DM.exact_float(J2)
     lo = hi = None
     try:
@@ -669,7 +711,8 @@ def work_cf(task, res: Result):
         res.violation("certified lower bound above certified upper bound (checker or harness unsound)", {"function": "cf_bracket", "args": desc, "certified": [lo, hi], "theorem": "cf_bracket"})
         return
     choi_fid = root_fidelity(J1 / d, J2 / d)
-    st, v = _call(channel_fidelity, _as_given(J1), _as_given(J2))
+    st, v = P.call("main", channel_fidelity, _as_given(J1), _as_given(J2), again=True, tol=2 * TAU_CF)
+    desc["presentation"] = P.last
     nontriv = hi is not None and hi <= 1 - 1e-2 and (lo is None or lo >= 1e-2)
     res.case(desc, nontriv, f"cf/{desc['kind']}/{'-'.join(task['kinds'])}/d{d}/{st}")
     if st == "numfail":
@@ -695,7 +738,7 @@ def work_cf(task, res: Result):
     if hi is not None and lo is not None and lo > choi_fid + CLOSED:
         res.violation("certified channel fidelity exceeds the Choi-state fidelity (harness error)", {"function": "choi_fidelity", "args": desc, "certified": [lo, hi], "choi_fidelity": choi_fid})
     # symmetry (chanFid_symm)
-    st2, v2 = _call(channel_fidelity, _as_given(J2), _as_given(J1))
+    st2, v2 = P.call("swap", channel_fidelity, _as_given(J2), _as_given(J1))
     if st2 == "ok":
         res.count("relation/cf-symmetry")
         if abs(v - v2) > 2 * TAU_CF:
@@ -704,7 +747,7 @@ def work_cf(task, res: Result):
         res.violation(f"channel_fidelity raises {v2} with the arguments exchanged", {"function": "channel_fidelity", "args": desc, "exception": v2, "local_dim": d})
     # equal channels (chanFid_self)
     if task.get("self", True):
-        st3, v3 = _call(channel_fidelity, J1, J1.copy())
+        st3, v3 = P.call("self", channel_fidelity, J1, J1.copy())
         if st3 == "ok":
             res.count("relation/cf-self")
             if abs(v3 - 1) > TAU_CF:
@@ -720,8 +763,8 @@ def work_cf_dim(task, res: Result):
     warnings.filterwarnings("ignore")
     d = task["d"]
     J = np.asarray(depolarizing(d), dtype=complex)
-    desc = {"fn": "channel_fidelity", "kind": "depolarizing-pair", "d": d}
-    st, v = _call(channel_fidelity, J, J.copy())
+    desc = {"fn": "channel_fidelity", "kind": "depolarizing-pair", "d": d, "pres": task.get("pres")}
+    st, v = Presenter(task.get("pres"), res, desc).call("main", channel_fidelity, _as_given(J), _as_given(J))
     res.case(desc, True, f"cf/depolarizing-pair/d{d}/{st}")
     if st == "raise":
         res.violation(f"channel_fidelity raises {v} on two depolarizing channels of local dimension {d} (expected 1.0)", {"function": "channel_fidelity", "args": desc, "exception": v, "local_dim": d, "theorem": "chanFid_self"})
@@ -738,8 +781,8 @@ def work_fos(task, res: Result):
     for w in vs[1:]:
         v = np.kron(v, w)
     rho = np.outer(v, v.conj())
-    desc = {"fn": "fidelity_of_separability", "dims": dims, "k": k, "vecs": vs}
-    st, val = _call(fidelity_of_separability, rho, list(dims), k)
+    desc = {"fn": "fidelity_of_separability", "dims": dims, "k": k, "vecs": vs, "pres": task.get("pres")}
+    st, val = Presenter(task.get("pres"), res, desc).call("main", fidelity_of_separability, rho, list(dims), k)
     res.case(desc, True, f"fos/{'x'.join(map(str, dims))}/k{k}/{st}")
     if st == "numfail":
         res.count("solver-numerical-failure")
@@ -772,7 +815,13 @@ def run(ctx, model_ok=True):
     n_cb = 64 if quick else 480
     for i in range(n_cb):
         cb_tasks.append(gen_cb_task(rng, i, quick))
-    run_pool(ctx, work_cb, cb_tasks)
+    prs = rng.spawn(1)[0]   # presentation stream: a child of the seeded generator (spawning does not consume the parent's draws)
+
+    def seeded(tasks):
+        for t in tasks:
+            t["pres"] = int(prs.integers(1, 2 ** 31))
+        return tasks
+    run_pool(ctx, work_cb, seeded(cb_tasks))
     rect = []
     for i in range(6 if quick else 40):
         dX, dY = [(2, 3), (3, 2), (2, 4), (1, 3), (3, 1), (2, 1)][i % 6]
@@ -796,8 +845,8 @@ def run(ctx, model_ok=True):
         t = {"d": d, "id": 2000 + i, "K1": [R.real.astype(float)], "K2": [qgen.cayley_unitary(rng, d, True, lim=2) if i % 2 else U],
              "kinds": ["real-unitary", "complex-unitary"], "full": False, "p1": 0.25, "p2": 0.25}
         cf_tasks.insert(0, t)
-    run_pool(ctx, work_cf, cf_tasks)
-    run_pool(ctx, work_cf_dim, [{"d": 5}] + ([] if quick else [{"d": 6}]))
+    run_pool(ctx, work_cf, seeded(cf_tasks))
+    run_pool(ctx, work_cf_dim, seeded([{"d": 5}] + ([] if quick else [{"d": 6}])))
     fos = []
     for i in range(3 if quick else 12):
         dims = [2, 2, 2]
@@ -806,7 +855,7 @@ def run(ctx, model_ok=True):
     fos.append({"vecs": [qgen.unit(qgen.int_vector(rng, 2, True, lim=3)) for _ in range(3)], "dims": [2, 2, 2], "k": 1})
     for dims, k in [[[3, 2, 2], 2], [[2, 2, 3], 2], [[2, 3, 2], 1]] + ([] if quick else [[[3, 2, 2], 2], [[2, 3, 3], 1], [[2, 2, 3], 2]]):
         fos.append({"vecs": [qgen.unit(qgen.int_vector(rng, dd, True, lim=3)) for dd in dims], "dims": dims, "k": k})   # unequal local dimensions
-    run_pool(ctx, work_fos, fos)
+    run_pool(ctx, work_fos, seeded(fos))
     ctx.extra["tolerances"] = {"cb": TAU_CB, "channel_fidelity": TAU_CF, "closed_forms": CLOSED}
     ctx.extra["certified_interval_width_bound"] = WIDTH_OK
 
